@@ -334,7 +334,8 @@ def _line_sweep(program, runner=None):
             return r
     r0["stats"] = dict(stats)
     r0["program"] = program
-    r0["sched_sig"] = jhash(["line_sweep", [[c["fn"] for c in t.get("calls", [])] for t in base["threads"]["tasks"]]])
+    r0["sched_sig"] = jhash(["line_sweep", [[c.get("fn") or (c.get("recipe") or {}).get("k") for c in t.get("calls", [])]
+                                            for t in base["threads"]["tasks"]]])
     r0["nontrivial"] = True
     return r0
 
